@@ -169,6 +169,30 @@ theorem C17_decenter_center {α : Type} (N0 N1 d0 d1 : Nat) (cval : α) (f : Im 
   have c : d0 ≤ y + d0 ∧ y + d0 < d0 + N0 ∧ d1 ≤ x + d1 ∧ x + d1 < d1 + N1 := by omega
   simp [decenter, center, c]
 
+/-- **C17-T5 (the embedding leaves the requested margin).** Whatever `_wavelet_center_compute` returns,
+the new side lengths are powers of two `2^(⌊log₂ o⌋ + c)` with one common `c ≥ 1`, the offsets are
+`(new − old)/2`, and every offset exceeds the requested `border` — so at least `border + 1` samples of
+`cval` precede the data on every axis (the margin the Daubechies reconstruction needs is `ncoeffs`). -/
+theorem C17_center_margin (oshape : List Nat) (border : Nat) (ns d : List Nat)
+    (h : centerCompute oshape border = some (ns, d)) :
+    (∀ x ∈ d, border < x) ∧
+    ∃ c, 1 ≤ c ∧ ns = oshape.map (fun o => 2 ^ (Nat.log2 o + c)) ∧
+      d = (ns.zip oshape).map (fun no => (no.1 - no.2) / 2) := by
+  unfold centerCompute at h
+  obtain ⟨a, ha, hf⟩ := List.exists_of_findSome?_eq_some h
+  simp only [List.mem_map, List.mem_range] at ha
+  obtain ⟨i, _, rfl⟩ := ha
+  simp only at hf
+  split at hf
+  · rename_i hall
+    simp only [Option.some.injEq, Prod.mk.injEq] at hf
+    obtain ⟨rfl, rfl⟩ := hf
+    refine ⟨?_, i + 1, by omega, rfl, rfl⟩
+    intro x hx
+    have := List.all_eq_true.mp hall x hx
+    simpa using this
+  · cases hf
+
 /-- **C17-T3/T6 (tables).** The table extracted for `D2` is exactly `(1, 1)`. -/
 theorem C17_D2_exact : Generated.D2.map toRat = [1, 1] := by decide +kernel
 
